@@ -707,6 +707,32 @@ func (s *Sim) RunTxn(i int) {
 	}
 	if s.forced == nil {
 		for _, t := range set {
+			if t.schema.Wide && s.Rng.IntN(5) == 0 {
+				// sweep: the key "a" (or "b") itself plus, in random order, up to all 64 one-letter extensions
+				// (the node under it passes every radix node size with its own leaf set), or the same downwards
+				first := "ab"[s.Rng.IntN(2)]
+				down := s.Rng.IntN(3) == 0
+				perm := s.Rng.Perm(len(t.schema.IDAlphabet))
+				n := 40 + s.Rng.IntN(len(perm)-39)
+				s.Logf("%s %s sweep first=%c down=%v n=%d", what, t.name, first, down, n)
+				if !down || s.Rng.IntN(2) == 0 {
+					s.forced = &forcedOp{kind: 0, id: []byte{first}}
+					s.writeOp(what, wtxn, t, working[t], true)
+				}
+				for k := 0; k < n && !s.Failed; k++ {
+					kind := 0
+					if down {
+						kind = 42
+					}
+					s.forced = &forcedOp{kind: kind, id: []byte{first, t.schema.IDAlphabet[perm[k]]}}
+					s.writeOp(what, wtxn, t, working[t], true)
+					s.forced = nil
+					if k%7 == 6 || k >= 46 && k <= 50 {
+						s.battery(what+" in-txn", wtxn, t, working[t], "query")
+					}
+				}
+				s.forced = nil
+			}
 			if t.schema.LongIDs && s.Rng.IntN(6) == 0 {
 				// deep chain: "/d", "/d/d", ... all present at once (radix tree depth = chain length, up to 60)
 				depth := 30 + s.Rng.IntN(31)
